@@ -278,8 +278,17 @@ int32_t jls_raw_wr_payload(struct jls_raw_s * self, uint32_t payload_length, con
     footer[pad + 2] = (crc32 >> 16) & 0xff;
     footer[pad + 3] = (crc32 >> 24) & 0xff;
 
-    RLE(jls_bk_fwrite(&self->backend, payload, hdr->payload_length));
-    RLE(jls_bk_fwrite(&self->backend, footer, pad + CRC_SIZE));
+    if (hdr->payload_length <= 256) {
+        // small payloads (e.g. the track head table, which is updated in place) are written together
+        // with their CRC in one call, so that the payload is never on disk without its matching CRC
+        uint8_t small[256 + sizeof(footer)];
+        memcpy(small, payload, hdr->payload_length);
+        memcpy(small + hdr->payload_length, footer, pad + CRC_SIZE);
+        RLE(jls_bk_fwrite(&self->backend, small, hdr->payload_length + pad + CRC_SIZE));
+    } else {
+        RLE(jls_bk_fwrite(&self->backend, payload, hdr->payload_length));
+        RLE(jls_bk_fwrite(&self->backend, footer, pad + CRC_SIZE));
+    }
     if (self->backend.fpos >= self->backend.fend) {
         self->last_payload_length = payload_length;
     }
